@@ -39,6 +39,8 @@ ARCH = {
     'gexsha1-1024': {'banner': 'SSH-2.0-dropbear_2020.81', 'kex': ['diffie-hellman-group-exchange-sha1'], 'key': ['ssh-ed25519'], 'hostkeys': HK_ED, 'moduli': [1024], 'gex_style': 'strict'},
     'gexsha1-4096': {'banner': 'SSH-2.0-dropbear_2020.81', 'kex': ['diffie-hellman-group-exchange-sha1'], 'key': ['ssh-ed25519'], 'hostkeys': HK_ED, 'moduli': [4096], 'gex_style': 'roundup'},
     'gexsha1-nosize': {'banner': 'SSH-2.0-dropbear_2020.81', 'kex': ['diffie-hellman-group-exchange-sha1'], 'key': ['ssh-ed25519'], 'hostkeys': HK_ED, 'moduli': [], 'gex_style': 'strict'},
+    # names that exist in both protocol versions' rating tables (next to an SSH-1 target)
+    'shared-names': {'banner': 'SSH-2.0-dropbear_2020.81', 'kex': ['curve25519-sha256'], 'key': ['ssh-ed25519'], 'enc': ['none', '3des', 'des', 'blowfish', 'aes128-ctr'], 'mac': ['hmac-sha2-256', 'none'], 'hostkeys': HK_ED},
     'unknown':    {'kex': ['curve25519-sha256', 'foo-kex@example.com'], 'key': ['ssh-ed25519', 'bar-key'], 'enc': ['aes128-ctr', 'baz-cbc'], 'mac': ['hmac-sha2-256', 'qux-etm@openssh.com'], 'hostkeys': HK_ED},
     'gss':        {'kex': ['gss-gex-sha1-dZuIebMjgUqaxvbF7hDbAw==', 'gss-group14-sha256-toWM5Slw5Ew8Mqkay+al2g==', 'curve25519-sha256'], 'key': ['ssh-ed25519', 'null'], 'hostkeys': HK_ED},
     'weakmac':    {'kex': ['diffie-hellman-group1-sha1'], 'key': ['ssh-dss', 'ssh-ed25519'], 'enc': ['3des-cbc', 'arcfour'], 'mac': ['hmac-md5', 'hmac-sha2-256-96'], 'hostkeys': HK_ED},
